@@ -153,7 +153,8 @@ impl<'de> Deserialize<'de> for Bytes {
             where
                 A: serde::de::SeqAccess<'de>,
             {
-                let mut buf = Vec::with_capacity(seq.size_hint().unwrap_or_default());
+                // the size hint comes from the (untrusted) input: never trust it for more than a page
+                let mut buf = Vec::with_capacity(seq.size_hint().unwrap_or_default().min(4096));
                 while let Some(byte) = seq.next_element()? {
                     buf.push(byte);
                 }
